@@ -225,6 +225,14 @@ class XsdIdentity(XsdComponent):
                         self.elements[e] = [FieldValueSelector(f, e) for f in self.fields]
                         e.selected_by.add(self)
 
+                    # The members of the substitution group can replace the element in
+                    # instances: a wildcard step selects them (the selection on the XML
+                    # data decides if an instance element is effectively selected).
+                    for s in e.iter_substitutes():
+                        if s not in self.elements:
+                            self.elements[s] = [FieldValueSelector(f, s) for f in self.fields]
+                            s.selected_by.add(self)
+
             elif not isinstance(e, (XsdAnyElement, XPathElement)):
                 msg = _("selector xpath expression can only select elements")
                 raise XMLSchemaTypeError(msg)
